@@ -167,15 +167,13 @@ def gen_mix_constants(mix, bases):
             FX.tla_set(FX.tla_str(p) for p in c['params']))
     L.append('\\* plugin mixins registered by the harness through ClassFactory().load_plugin (harness/fx_mixins.py)')
     L.append('HarnessMixins == {\n  ' + ',\n  '.join(klass(c) for c in hm) + '}')
-    ops = []
-    for c in hm:
-        ops.append('(%s :> [mulkey |-> %s, m0 |-> %s, addkey |-> %s, a0 |-> %s])' % (
-            FX.tla_str(c['name']), FX.tla_str(c['mulkey']), _rat(c['m0']), FX.tla_str(c['addkey']), _rat(c['a0'])))
-    for c in mix:
-        mk, m0, ak, a0 = BUILTIN_OPS.get(c['name'], ('', (1, 1), '', (0, 1)))
-        ops.append('(%s :> [mulkey |-> %s, m0 |-> %s, addkey |-> %s, a0 |-> %s])' % (
-            FX.tla_str(c['name']), FX.tla_str(mk), _rat(m0), FX.tla_str(ak), _rat(a0)))
-    L.append('MixOpTab == ' + ' @@ '.join(ops))
+    def op(name, mk, m0, ak, a0):
+        return '(%s :> [mulkey |-> %s, m0 |-> %s, addkey |-> %s, a0 |-> %s])' % (FX.tla_str(name), FX.tla_str(mk), _rat(m0), FX.tla_str(ak), _rat(a0))
+    ops = [op(c['name'], c['mulkey'], c['m0'], c['addkey'], c['a0']) for c in hm]
+    L.append('\\* chain of the probe method defined by the plugin mixins: built-in mixins do not take part (identity)')
+    L.append('MixOpTab == ' + ' @@ '.join(ops + [op(c['name'], '', (1, 1), '', (0, 1)) for c in mix]))
+    L.append('\\* chain of the temperature profile property: the built-in TempScaler multiplies by scale_factor')
+    L.append('MixProfTab == ' + ' @@ '.join(ops + [op(c['name'], *BUILTIN_OPS.get(c['name'], ('', (1, 1), '', (0, 1)))) for c in mix]))
     rows = []
     for b in bases:
         rows.append('[kind |-> %s, sel |-> %s, cls |-> %s, keys |-> %s, fixed |-> %s]' % (
